@@ -31,7 +31,7 @@ where
 {
     pub(crate) manager_rx: mpsc::Receiver<SessionStream<T, E>>,
     pub(crate) session_rx_set:
-        SelectAll<Pin<Box<dyn StreamDebug<Option<FromSync<TopicLogSyncEvent<E>>>>>>>,
+        SelectAll<Pin<Box<dyn StreamDebug<Option<(T, FromSync<TopicLogSyncEvent<E>>)>>>>>,
     pub(crate) session_topic_map: SessionTopicMap<T, mpsc::Sender<ToTopicSync<E>>>,
     pub(crate) dedup: DeduplicationBuffer<Hash>,
 }
@@ -80,23 +80,26 @@ where
                     };
                     trace!("manager event received: {manager_event:?}");
                     let session_id = manager_event.session_id;
+                    let topic = manager_event.topic.clone();
                     state.session_topic_map.insert_with_topic(session_id, manager_event.topic, manager_event.live_tx);
 
                     let stream = BroadcastStream::new(manager_event.event_rx);
 
+                    // Every event carries the topic of its session, so events which are still
+                    // queued when the session gets dropped from the topic map can be handled.
                     let stream =
                         Box::pin(stream.map(Box::new(
                             move |event: Result<TopicLogSyncEvent<E>, BroadcastStreamRecvError>| {
-                                event.ok().map(|event| FromSync {
+                                event.ok().map(|event| (topic.clone(), FromSync {
                                     session_id,
                                     remote: manager_event.remote,
                                     event,
-                                })
+                                }))
                             },
                         )));
                     state.session_rx_set.push(stream);
                 }
-                Some(Some(from_sync)) = state.session_rx_set.next() => {
+                Some(Some((topic, from_sync))) = state.session_rx_set.next() => {
                     trace!("from sync event received: {from_sync:?}");
                     let session_id = from_sync.session_id();
                     let event = from_sync.event();
@@ -107,12 +110,10 @@ where
                     };
 
                     if let Some(operation) = operation {
-                        let Some(topic) = state.session_topic_map.topic(session_id) else {
-                            debug!(session_id, "drop session: missing from topic map");
-                            state.session_topic_map.drop(session_id);
-                            continue;
-                        };
-                        let keys = state.session_topic_map.sessions(topic);
+                        // The session which emitted this event might already be dropped from the
+                        // topic map (it ended and a forward to it failed), the operation still
+                        // needs to reach all other sessions of the topic and the consumer.
+                        let keys = state.session_topic_map.sessions(&topic);
                         let mut dropped = vec![];
 
                         for id in keys {
